@@ -1,0 +1,53 @@
+//go:build verif
+
+package jsonapi
+
+// Contracts for Range and its sorting helper (C09).
+
+//@ func sortedResources.Len
+//@ props C09
+//@ ensures len: result == len(s.col)
+
+//@ func sortedResources.Swap
+//@ props C09
+//@ requires in-range: 0 <= i && i < len(s.col) && 0 <= j && j < len(s.col)
+//@ modifies elems[Resource](s.col)
+//@ ensures swapped: s.col[i] == old(s.col[j]) && s.col[j] == old(s.col[i])
+//@ ensures others: forall k int :: 0 <= k && k < len(s.col) && k != i && k != j ==> s.col[k] == old(s.col[k])
+
+//@ func sortedResources.Sort
+//@ flag absolute-quantifiers
+//@ props C09
+//@ modifies elems[Resource](s.col), new[string], new[sortedResources]
+//@ ensures permuted: forall a int :: 0 <= a && a < len(s.col) ==> (exists b int :: 0 <= b && b < len(s.col) && s.col[a] == old(s.col[b]))
+
+// member: x is one of the resources of collection c; listed: its id is in ids
+// (every id when the list is empty).
+//@ spec member(c Collection, x Resource) = C_has($rh, c, x)
+//@ spec listed(ids []string, x Resource) = len(ids) == 0 || (exists j int :: 0 <= j && j < len(ids) && ids[j] == str(R_get($rh, x, "id")))
+// allowedAtEntry: the filter's verdict on x in the state in which Range was called (Range
+// itself allocates, which changes the heap terms the verdict function takes as arguments).
+//@ spec allowedAtEntry(f *Filter, x Resource) = allowed(old(heap[Filter]), old(heap[*Filter]), old(heap[string]), old($rh), f, x)
+//@ spec selected(c Collection, ids []string, filter *Filter, x Resource) = x != nil && member(c, x) && listed(ids, x) && (filter != nil ==> allowedAtEntry(filter, x))
+//@ spec allSelected(col Resources, c Collection, ids []string, filter *Filter) = forall k int :: 0 <= k && k < len(col) ==> selected(c, ids, filter, col[k])
+
+//@ func Range
+//@ flag absolute-quantifiers
+//@ props C09
+//@ requires nonnil: c != nil
+//@ requires well-typed-filter: filter != nil ==> (forall x Resource :: C_has($rh, c, x) ==> wtNow(filter, x))
+//@ requires page-in-range: num * size < 9223372036854775808
+//@ modifies new[Resource], new[Resources], new[string], new[sortedResources]
+//@ ensures non-nil: result != nil && dyn(result) == type[*Resources] && fresh(unbox(result, type[*Resources]))
+//@ ensures page-size: len(*unbox(result, type[*Resources])) <= size
+//@ ensures only-selected: allSelected(*unbox(result, type[*Resources]), c, ids, filter)
+//@ spec picked(col Resources, c Collection, ids []string) = forall k int :: 0 <= k && k < len(col) ==> col[k] != nil && member(c, col[k]) && listed(ids, col[k])
+//@ loop 0 invariant col: (cap(col.col) == 0 || fresh(col.col)) && unchanged(heap[Resource]) && 0 <= i && picked(col.col, c, ids) && len(ids) > 0
+//@ loop 1 invariant col: (cap(col.col) == 0 || fresh(col.col)) && unchanged(heap[Resource]) && 0 <= i && i < C_len($rh, c) && picked(col.col, c, ids) && len(ids) > 0
+//@ loop 2 invariant col: (cap(col.col) == 0 || fresh(col.col)) && unchanged(heap[Resource]) && 0 <= i#1 && picked(col.col, c, ids) && len(ids) == 0
+//@ loop 3 invariant col: (cap(col.col) == 0 || fresh(col.col)) && unchanged(heap[Resource]) && 0 <= i#2 && i#2 <= len(col.col) && picked(col.col, c, ids)
+//@ loop 3 invariant allowed-so-far: forall k int :: 0 <= k && k < i#2 ==> allowedAtEntry(filter, col.col[k])
+//@ loop 4 invariant page: (cap(page) == 0 || fresh(page)) && unchanged(heap[Resource]) && unchanged(heap[[]Resource]) && skip <= i#3 && len(page) == i#3 - skip && (size >= 9223372036854775808 ==> len(page) == 0) && (size < 9223372036854775808 ==> len(page) <= size)
+//@ loop 4 invariant page-selected: allSelected(page, c, ids, filter)
+//@ loop 4 invariant col-selected: allSelected(col.col, c, ids, filter)
+//@ assert before Sort#0 selected-before-sort: allSelected(col.col, c, ids, filter)
